@@ -40,6 +40,7 @@ from vlib.compare import Err, diff, exc_kind
 from props import _complexes as cx
 
 ID = 'C17'
+PYBASIS_METHODS = ['matches']   # basis.py methods re-translated and proved equal to the hand model each run
 RTOL = 1e-9
 ATOL = 1e-11
 KTOL = gen.TOL
